@@ -127,6 +127,7 @@ type genProfile struct {
 	ZeroTSPct int  // percentage of zero timestamps among timestamp values
 	Kinds     []colKind
 	AllowJSON bool
+	JumboLeft *int // remaining jumbo values to generate in this history
 }
 
 var defaultKinds = []colKind{
@@ -677,6 +678,14 @@ func genVal(s *Stream, c *ColDef, prof *genProfile) Val {
 			max = 1 << 20
 		}
 		n := payloadLen(s, max, prof)
+		if prof.JumboLeft != nil && *prof.JumboLeft > 0 && c.P1 >= 4 {
+			// an event of 2^24-1 bytes or more is split over several MySQL packets
+			*prof.JumboLeft--
+			n = 1<<24 - 200 + s.N(400)
+			if s.Chance(1, 3) {
+				n = 2<<24 + s.N(1000)
+			}
+		}
 		p := payload(s, n)
 		enc := leN(nil, uint64(n), c.P1)
 		return Val{Enc: append(enc, p...), Text: p}
